@@ -11,7 +11,7 @@ THEOREMS = ["C10_product_sound", "C10_product_sound_lax", "C10_product_sound_tcp
             "C10_segmentation_current", "C10_segmentation_nonvacuous", "C10_dispatch_udp", "C10_dispatch_tcp_none",
             "C10_dispatch_tcp_some", "C10_id_independent_of_ctx", "C10_dispatch_responders", "C10_no_signature_udp",
             "C10_no_signature_tcp", "C10_signature_udp", "C10_signature_tcp", "C10_known_covers", "C10_known_needed",
-            "C10_known_witnesses", "C10_examples", "C10_ref_is_direct_reading", "C10_ref_tie_free", "Env.the_env_ok"]
+            "C10_known_witnesses", "C10_examples", "C10_ref_is_direct_reading", "C10_ref_tie_free", "SrcTie.src_protocol_ids", "SrcTie.src_smack_constants", "SrcTie.src_signatures_are_published", "Env.the_env_ok"]
 MONITORS = []
 RULE = ("(1) matcher level, through the hook that calls the real PROTO_SMACK.search_next / search_next_end: one access "
         "string per reachable state of the product (compiled matcher x reference signature automaton; 297 states, "
